@@ -78,6 +78,7 @@ func (db *DB) VerifKeySources(cf kv.ColumnFamily, key []byte) []VerifKeySource {
 				ke.Pointer = true
 				var vp kv.ValuePtr
 				vp.Decode(e.Value)
+				ke.Bucket, ke.Fid = vp.Bucket, vp.Fid
 				res, cb, err := db.vlog.read(&vp)
 				if err != nil {
 					ke.Err = err.Error()
@@ -116,6 +117,8 @@ type VerifKeyEntry struct {
 	Meta      byte
 	ExpiresAt uint64
 	Pointer   bool
+	Bucket    uint32 // value-log bucket and segment the pointer refers to (Pointer only)
+	Fid       uint32
 	Value     []byte
 	ValueLen  int
 	Sum       uint32 // CRC-32 (IEEE) of the whole resolved value
